@@ -80,15 +80,16 @@ def _inertia_tensors(m):
     return np.einsum("bij,bj,bkj->bik", R, I, R)
 
 
-def compare(m1, m2, digits=17, align=False):
-    """-> list of (kind, field, message, magnitude). kind in exact|size|pass|unit|derived|opt|vis|stat"""
+def compare(m1, m2, digits=17, align=False, ignore_sizes=()):
+    """-> list of (kind, field, message, magnitude). kind in exact|size|pass|unit|derived|opt|vis|stat
+    ignore_sizes: size fields that are not compared (arrays whose shapes then differ are reported as 'exact' shape diffs)"""
     out = []
     info = {"int_snap": 0, "max_unit": 0.0, "max_derived": 0.0, "iquat_degenerate": 0}
     full = digits >= 17
     rtol = 0.0 if full else 10.0 ** (-(digits - 1))
     s1, s2 = m1.sizes(), m2.sizes()
     for k in s1:
-        if s1[k] != s2.get(k):
+        if s1[k] != s2.get(k) and k not in ignore_sizes:
             out.append(("size", k, "%s != %s" % (s1[k], s2.get(k)), 0))
     if out:
         return out, info
